@@ -427,6 +427,16 @@ def check_forms(res: JobResult, endian):
                 res.nontrivial += 1
                 case = {"input": data.hex(), "count": k}
                 try:
+                    if k == 1:
+                        # a scalar takes exactly its own bytes from a longer buffer, through every call form
+                        longer = chosen[0] + b"\xa5\x5a\xff" + chosen[0]
+                        forms_ = {"T(bytes)": lambda: T(longer), "T(bytearray)": lambda: T(bytearray(longer)), "T(memoryview)": lambda: T(memoryview(longer)), "T(stream)": lambda: T(io.BytesIO(longer)),
+                                  "T.reads": lambda: T.reads(longer), "T.read(bytes)": lambda: T.read(longer), "T.read(stream)": lambda: T.read(io.BytesIO(longer)), "cs.read": lambda: cs.read(canon, longer)}
+                        for fname_, fn_ in forms_.items():
+                            got_ = impl.norm(fn_())
+                            if not same(got_, exp[0]):
+                                viol(res, "forms:surplus-bytes", canon, endian, f"{fname_} on {longer.hex()} gives {got_!r}, the first {sz} bytes decode to {exp[0]!r}", **case)
+                                break
                     scal = [impl.norm(T(c)) for c in chosen]
                     fixed = impl.norm(T[k](io.BytesIO(data + b"\xee")))
                     st0 = io.BytesIO(data + bytes(sz) + b"\xee")
@@ -470,9 +480,12 @@ def check_forms(res: JobResult, endian):
                     viol(res, "forms:raises", canon, endian, f"{data.hex()}: {impl.exc_sig(ex)} {ex!r}", **case)
     # wchar: the three forms decode UTF-16 text of the current byte order, incl. characters outside the BMP (surrogate pairs)
     W = cs.resolve("wchar")
-    for lo in range(len(text)):
-        for hi in range(lo + 1, len(text) + 1):
-            sub = text[lo:hi]
+    # (U+FEFF / U+FFFE are ordinary characters of the text: the byte order is the cstruct object's, never taken from the data)
+    subs = [text[lo:hi] for lo in range(len(text)) for hi in range(lo + 1, len(text) + 1)]
+    bom = "\ufeffA\ufffeB\ufeff"
+    subs += [bom[lo:hi] for lo in range(len(bom)) for hi in range(lo + 1, len(bom) + 1)]
+    for sub in subs:
+        if True:
             data = sub.encode(enc16)
             units = len(data) // 2
             res.evaluations += 1
